@@ -192,6 +192,15 @@ class Program(object):
                 self.modules[name] = m
         if "dateutil.rrule" not in self.modules:
             raise AnalysisError("E0", self.pkg_dir, "dateutil.rrule not found")
+        self.canon_log = []
+        if os.environ.get("VERIF_NO_CANON") != "1":
+            from . import canon
+            try:
+                self.canon_log = canon.canonicalise(self.modules)
+            except AnalysisError:
+                raise
+            except Exception as e:     # a canonicalisation bug must not pass silently
+                raise AnalysisError("E0b", self.pkg_dir, "canonicalisation failed: %r" % (e,))
         for m in self.modules.values():
             self._index_module(m)
 
